@@ -52,15 +52,31 @@ CHECKS = {
    design_ref="DESIGN.md §4 C19",
    note="Trusted: SQVM semantics + 64-bit bitwise builtin models (validated against the real executor), z3. __binary_hash32__ is uninterpreted (its implementation is C12's subject). Keys are binaries; Str keys not driven. Longer histories / more keys are outside the bound.",
  ),
+ "C01": dict(
+   engine="E1 SQVM (z3)",
+   technique="symbolic execution of the real bytecode of every exported function of the corpus programs over all constructor shapes of its declared parameter type (integer leaves symbolic); never-stuck and result-inhabits-type obligations; counterexamples re-compiled and run as source-level programs through the real compiler",
+   category="model_checking",
+   text="INPUTS QUANTIFIER ONLY. The program quantifier is instantiated by a corpus (std modules + examples; thorough adds the test-suite and spec sources); for each function those programs export, the solver decides over EVERY value of the declared parameter type (all constructor shapes to depth 3 from the real type table, unbounded symbolic integers, opaque binaries) that execution never reaches a VM-level type failure and that returned values inhabit the inferred result type (real is_compatible). A violation is reported only if the same call, written as a source literal, is accepted by the real compiler and gets stuck on the real executor. A checker hole that no corpus function exercises is not detected.",
+   design_ref="DESIGN.md §4 C01",
+   note="Trusted: SQVM semantics/builtin models (validated against the real executor), z3, real is_compatible via qvdump. Functions with function/process/generic parameters are skipped; paths through concurrency instructions, unmodelled builtins on opaque binaries, the step/time budget are counted, not claimed.",
+ ),
+ "C12": dict(
+   engine="E2 Kani/CBMC harness world",
+   technique="Kani proof harnesses running the real builtin bodies (copied verbatim from /repo at check time) against reference models over symbolic arguments, with stand-ins for Value/num-bigint/Executor plumbing; real rope checked against a flat byte array; counterexamples decoded and replayed through the real builtin natively (dev and release) and judged by an independent Python model",
+   category="model_checking",
+   text="Per builtin and per concrete argument-binary length, one Kani harness decides over all 128-bit integer arguments and all byte contents that the real body returns the reference value, errors only outside the documented domain and never panics (CBMC's overflow/bounds/unwrap checks). Rope-shape independence is compositional: builtin harnesses use a flat reference rope; rope harnesses show the real BinaryData (owned, zeroed, tiled with symbolic count) agrees with it. Decided set = the harnesses that finish within memory (see evidence per_harness); slice/concat ropes and the Vec-building bodies binary_set/append/vector_push/elementwise exhaust CBMC's memory and are NOT claimed.",
+   design_ref="DESIGN.md §4 C12",
+   note="Trusted: Kani 0.68/CBMC 6.11, the stand-ins in kani/c12world (part of the claim), the harness reference models, checks/c12_models.py. Bounds: |n| < 2^127, binaries of 0..10 bytes at the listed lengths, rope depth 1. integer_sqrt/gcd/sin/cos and num-bigint arithmetic are outside.",
+ ),
 }
 
 NOT_APPLICABLE = {
  "C01": "not built yet in this round (planned: E1 over a program corpus, inputs quantifier only)",
- "C02": "not built yet (planned last: translation validation with a reference evaluator)",
+ "C02": "needs an independent reference evaluator of docs/spec.md plus a program generator (translation validation); not built in this round - the inputs quantifier of compiled programs is partly covered by C01/C19/C20, the semantic agreement with the spec is not decided",
  "C03": "quantifies over interleavings of Worker::step/Environment::step; no installed engine executes the scheduler, workers or transports symbolically (Kani cannot finish one Executor::step; no concurrency support); a hand model would not be the real code",
  "C04": "same code and quantifier as C03 (await/deliver protocol across worker.rs and environment.rs over std HashMap and boxed trait objects): not encodable within reach",
  "C05": "not built yet (planned: Kani on handle_select_timeout / next_timeout_ms, timeout clause only)",
- "C06": "not built yet (slot-accounting kernel only, conditional on the MIR engine)",
+ "C06": "quantifies over programs and schedules of value movements through the interpreter and workers (retain/release wiring, select receiving slot); instruction handlers own Values and hash maps, which CBMC cannot get through, and SQVM does not model the heap accounting; only the 4-function slot kernel would be in reach and is not built",
  "C07": "not built yet (planned: E1 abstract mode)",
  "C08": "compute_type_compatibility/TypeIndex are HashMap/HashSet constructions over whole programs; Kani cannot run them and the MIR interpreter has no hash containers; checking the tables concretely would be a different technique",
  "C09": "check_type_relation is a 14-way recursive function over heap-resident enums with a std HashSet; under CBMC every recursion level explores every variant (measured blow-up on BinaryData::len); not encodable within reach",
